@@ -765,7 +765,9 @@ class _FPCore2FPy:
                     e = data_as_expr(v, strict=True)
                     new_props[k] = self._visit(e, _Ctx(env=ctx.env))
                 case _:
-                    new_props[pythonize_id(k)] = self._visit_data(v.value)
+                    # a core built in memory by the FPy writer holds plain
+                    # values where a parsed one holds `Data`
+                    new_props[pythonize_id(k)] = self._visit_data(v.value) if isinstance(v, fpc.Data) else v
         return new_props
 
     def _visit_function(self, f: fpc.FPCore):
